@@ -34,6 +34,7 @@ QKIND = {
     "call_read": "QRead", "grpc_bank": "QRead", "grpc_evm_balance": "QRead", "grpc_funtoken": "QRead", "grpc_oracle": "QRead",
     "call_xfer": "QCallXfer", "call_bank": "QCallBank", "call_bank_other": "QCallBankOther", "call_s2b": "QCallBankOther",
     "est_xfer": "QEstXfer", "est_bank": "QEstBank", "trace_bank": "QTraceBank", "trace_call": "QCallXfer", "trace_block": "QCallXfer",
+    "est_s2b": "QCallBankOther", "trace_s2b": "QCallBankOther", "call_s2e": "QCallBankOther",
     "sim_evm": "QSimEvm", "sim_evm_bank": "QSimEvmBank", "sim_bank": "QSimBank",
 }
 # entry point : operation, as used in finding signatures
@@ -41,6 +42,8 @@ QNAME = {
     "call_read": "EthCall:FunToken.bankBalance", "call_xfer": "EthCall:transfer", "call_bank": "EthCall:FunToken.bankMsgSend(unibi)",
     "call_bank_other": "EthCall:FunToken.bankMsgSend(other-denom)", "call_s2b": "EthCall:FunToken.sendToBank(erc20)",
     "est_xfer": "EstimateGas:transfer", "trace_call": "TraceCall:transfer", "trace_block": "TraceBlock:transfer",
+    "est_s2b": "EstimateGas:FunToken.sendToBank(erc20)", "trace_s2b": "TraceTx:FunToken.sendToBank(erc20)",
+    "call_s2e": "EthCall:FunToken.sendToEvm(erc20-denom)",
     "est_bank": "EstimateGas:FunToken.bankMsgSend(unibi)", "trace_bank": "TraceTx:FunToken.bankMsgSend(unibi)",
     "sim_evm": "Simulate:MsgEthereumTx(transfer)", "sim_evm_bank": "Simulate:MsgEthereumTx(FunToken.bankMsgSend(unibi))",
     "sim_bank": "Simulate:bank.MsgSend(unibi)", "grpc_bank": "gRPC:bank.Balance", "grpc_evm_balance": "gRPC:evm.Balance",
@@ -80,7 +83,8 @@ def to_coq_case(rec):
     if not o["injected"] or not i["queries"]:
         pt = "PNone"
     else:
-        pt = {"yield": "(PYield %d)" % i["k"], "pre": "PPre", "post": "PPost", "interblock": "PInter"}[i["point"]]
+        pt = {"yield": "(PYield %d)" % i["k"], "pre": "PPre", "post": "PPost", "interblock": "PInter",
+              "parked": "PParked" if o.get("parked") else "PPre"}[i["point"]]
     ob = "(mkObs %s %s %s %s %s %s %s)" % (_b(o["hash_eq"]), _b(o["next_eq"]), _b(o["tx_eq"]), _b(o["base_ok"]), _b(o["tx_ok"]),
                                           _zl(o["base"]), _zl(o["with"]))
     return "(mkCase %s %s %s %s [%s] %s %s [%s] %s %s %s %s %s)" % (
@@ -89,7 +93,10 @@ def to_coq_case(rec):
 
 
 def _in_flight(rec):
-    return rec["input"]["point"] == "yield" and rec["obs"]["injected"] and len(rec["input"]["queries"]) > 0
+    i, o = rec["input"], rec["obs"]
+    if i["point"] == "parked":
+        return bool(o.get("parked"))
+    return i["point"] == "yield" and o["injected"] and len(i["queries"]) > 0
 
 
 def nontrivial(rec):
@@ -98,7 +105,7 @@ def nontrivial(rec):
 
 def classify(rec):
     i, o = rec["input"], rec["obs"]
-    ks = ["point:" + (i["point"] if o["injected"] else "not-reached"), "queries=%d" % len(i["queries"]),
+    ks = ["point:" + ((i["point"] + ("" if i["point"] != "parked" or o.get("parked") else "-not-parked")) if o["injected"] else "not-reached"), "queries=%d" % len(i["queries"]),
           "steps=%d" % len(i["steps"]), "revert" if i["revert"] else "no-revert"]
     for q, r in zip(i["queries"], o["qres"]):
         ks.append("q:" + q["kind"])
@@ -134,7 +141,9 @@ def signature(rec):
     kinds = sorted({q["kind"] for q in i["queries"]})
     banking = [k for k in kinds if k in BANKING]
     named = banking if (banking and _in_flight(rec)) else kinds
-    return {"kind": "query-at-yield-point" if _in_flight(rec) else "query-at-" + i["point"],
+    where = ("query-parked-in-precompile(%s)" % i.get("park", "")) if (i["point"] == "parked" and _in_flight(rec)) else \
+        ("query-at-yield-point" if _in_flight(rec) else "query-at-" + i["point"])
+    return {"kind": where,
             "query": "+".join(QNAME[k] for k in named), "effect": _effect(rec)}
 
 
